@@ -276,7 +276,7 @@ fn corpus_programs(tier: &str, with_comments: bool) -> (Vec<(String, String)>, V
         "COVER": format!("{} programs of the generated families that reach compile-path regions the first ~90 programs of each family do not (coverage-instrumented build, development aid)", cover_count),
         "DEEP": format!("{} programs: bracket nesting 64..300 levels (around the 8-bit boundary), in skipped and in entered loops (deterministic)", deep_count),
         "GEO": format!("{} programs: counted loops updating a cell as y = k*y + d (geometric closed form), constant and input-dependent counts and start values; a two-cell linear recurrence (deterministic)", geo_count),
-        "DSE": format!("{} programs: store, barrier (moving scans, moves, loops), second store at the same relative offset, dump of the neighbourhood; constant and input-dependent stores (deterministic)", dse_count),
+        "DSE": format!("{} programs: store, barrier (moving scans, moves, loops), second store at the same relative offset, dump of the neighbourhood; store, conditional overwrite, permutation of the cells, dump; constant and input-dependent stores (deterministic)", dse_count),
         "ROT": format!("{} k-cell rotations with arithmetic inside an input-controlled loop, k up to 16 (stack temporaries in the JIT; seed {})", rot_count, sd),
         "STRUCT": format!("{} structured programs (assignments, preserving/destructive multiply-adds, counted loops, ifs over 4 variables; seed {})", struct_count, sd),
         "REPO": format!("{} programs extracted from src/exec/testdef.rs and examples/", repo_count),
